@@ -41,50 +41,3 @@ Print Assumptions C17_copy_fits.
 (* exactness: the bounds per language (registry order); the Korean one is the largest *)
 Example C17_bound_values : map phrase_bound langs = [143; 477; 543; 175; 207; 159; 143; 143; 63; 63]%nat.
 Proof. vm_compute. reflexivity. Qed.
-
-(* ---- the tie to the code: src/polyseed.c as TRANSLATED on this run (Gen/CApi.v) ---- *)
-From Coq Require Import String.
-From PS Require Import Base GFDefs PackDefs StoreDefs MiscDefs StrDefs LangDefs ApiDefs GFProofs PackProofs StoreProofs CTieBase CTieLang CTiePhrase CTiePhraseEv CTieSplit CTieApi CTieDecode CTieEncode.
-From PS.Gen Require Import Consts PrivConsts Langs.
-From PS.Gen Require CFuns.
-From PS.Gen Require CApi.
-
-(* write_str as translated: the bytes of the word at the offset, the offset advanced by its length - while it fits the buffer *)
-Theorem C17_code_tie_write_str :
-  forall (fuel : nat) (sgn : bool) (M : nat) (w : bytes) (a : list byte),
-         no_nul w ->
-         (Datatypes.length a + Datatypes.length w <= M)%nat ->
-         (Datatypes.length w + 1 <= fuel)%nat ->
-         CApi.write_str fuel sgn (zs a ++ repeat 0%Z (M - Datatypes.length a)) (Z.of_nat (Datatypes.length a))
-           (zs w) =
-         Some (zs (a ++ w) ++ repeat 0%Z (M - Datatypes.length (a ++ w)), Z.of_nat (Datatypes.length (a ++ w))).
-Proof. exact @tie_write_str. Qed.
-Print Assumptions C17_code_tie_write_str.
-
-(* polyseed_encode as translated: every write stays inside str_tmp exactly when the joined phrase is shorter than POLYSEED_STR_SIZE (the case C17_bounds shows is the only one), and the length returned is the length written *)
-Theorem C17_code_tie_api_encode :
-  forall (sgn : bool) (st : state) (fuel li : nat) (L : lang),
-         nth_error langs li = Some L ->
-         (forall j : nat, (Datatypes.length (nth j (l_words L) []) + 1 <= fuel)%nat) ->
-         (Datatypes.length (l_separator L) + 1 <= fuel)%nat ->
-         (forall x : bytes, snd (dp_nfc (st_deps st) x) < 2 ^ 64) ->
-         forall (h : N) (d : data) (coin : N) (out0 : list Z),
-         heap_get (st_heap st) h = Some d ->
-         Canon d ->
-         d_checksum d < 2048 ->
-         coin < 2048 ->
-         (1 <= Datatypes.length out0)%nat ->
-         match step sgn langs st (OpEncode h li coin) with
-         | (st', OutStr o nn, evs) =>
-             exists (cevs : list CApi.cev) (rest : list Z),
-               CApi.polyseed_encode fuel sgn (znfc (st_deps st))
-                 (fun _ i : Z => zs (nth (Z.to_nat i) (l_words L) [])) (fun _ : Z => zs (l_separator L))
-                 (fun _ : Z => if l_compose L then 1%Z else 0%Z) (Z.of_N (d_birthday d))
-                 (Z.of_N (d_features d)) (map Z.of_N (d_secret d)) (Z.of_N (d_checksum d)) 
-                 (Z.of_nat li) (Z.of_N coin) out0 = Some (cevs, zs o ++ 0%Z :: rest, Z.of_N nn) /\
-               evs_of (st_deps st) cevs = evs /\ st' = st
-         | (st', OutFault, _) | (st', OutUnit, _) | (st', OutNum _, _) | (st', OutStatus _ _ _, _) |
-           (st', OutBytes _, _) => True
-         end.
-Proof. exact @tie_encode. Qed.
-Print Assumptions C17_code_tie_api_encode.
